@@ -159,7 +159,7 @@ pub fn profile(prop: &str) -> Profile {
         },
         "C18" => Profile {
             prop: "C18",
-            w: [34, 8, 10, 6, 18, 12, 3, 1, 1, 1, 0, 2, 1, 0, 0, 5, 0, 3],
+            w: [34, 8, 10, 8, 18, 12, 3, 1, 1, 1, 2, 2, 1, 0, 0, 5, 0, 3],
             kind_w: [35, 12, 12, 14, 22, 5],
             size_w: [30, 65, 5, 0, 0],
             obs_level: 1,
